@@ -39,6 +39,7 @@ func runC19(c *Ctx) {
 	}
 	c19Retry(c)
 	c19Timeout(c)
+	c19Reconnecting(c)
 }
 
 // ---------------------------------------------------------------------------------------------
@@ -697,6 +698,110 @@ func c19Timeout(c *Ctx) {
 		c.Explore(sc)
 		if kind == c19PubQ1 && net != nil {
 			c.Sample(map[string]any{"part": "timeout", "scenario": name, "OnError": seen, "wire": net.TraceStrings()})
+		}
+	}
+}
+
+// ---------------------------------------------------------------------------------------------
+// part "reconnecting": errors seen through the reconnecting client
+
+// c19Reconnecting: (a) every error the retrying client reports through OnError for an interrupted
+// QoS>=1 publish / subscribe / unsubscribe still carries its retry handle and a transport-level
+// cause, also when the interrupted transmission was itself a retransmission; (b) a Connect of the
+// reconnecting client that is given up by its caller's context reports that context's error,
+// whatever attempts failed before.
+func c19Reconnecting(c *Ctx) {
+	c.Bound("reconnecting.onerror", "ReconnectClient, workloads {QoS1, QoS2, subscribe, unsubscribe} x connection cut before/after the request is processed, F<=2 (so that retransmissions are interrupted again): every OnError value implements ErrorWithRetry and has ErrClosedTransport or io.EOF or the transport's own error in its chain")
+	faults := env.FaultSet{LostClose: true, AckLost: true, WriteErr: true, OnlyTypes: map[byte]bool{env.PUBLISH: true, env.PUBREL: true, env.SUBSCRIBE: true, env.UNSUBSCRIBE: true}}
+	for _, k := range []string{"p1", "p2", "sub", "unsub"} {
+		q := rcReq{Kind: k, Phase: 'S'}
+		switch k {
+		case "p1", "p2":
+			q.Tag = "m1"
+		case "sub":
+			q.Subs = []string{"a:1"}
+		default:
+			q.Subs = []string{"a"}
+		}
+		reqs := []rcReq{q}
+		var r *rcRun
+		sc := &vrt.Scenario{
+			Name:  "C19/reconnecting/onerror/" + rcName(reqs),
+			Bound: vrt.Budget{F: 2},
+			Cfg:   vrt.Config{Horizon: int64(300e9)},
+			Body: func() {
+				rcExecuteInto(&rcCfg{Reqs: reqs, Faults: faults, KeepSession: true}, &r)
+				for i, e := range r.onErr {
+					var rt mqtt.ErrorWithRetry
+					if !errors.As(e, &rt) {
+						vrt.Failf("reconnecting/onerror-without-retry-handle/"+k, "OnError value #%d for the interrupted %s carries no retry handle (ErrorWithRetry): %T %v\n%s", i, k, e, e, r.summary())
+					}
+					if !errors.Is(e, mqtt.ErrClosedTransport) && !errors.Is(e, io.EOF) && !errors.Is(e, env.ErrLinkDown) && !errors.Is(e, env.ErrClosed) {
+						vrt.Failf("reconnecting/onerror-cause-lost/"+k, "OnError value #%d for the interrupted %s has no transport-level cause in its chain: %v\n%s", i, k, e, r.summary())
+					}
+				}
+			},
+			Observe: func() uint64 { return r.net.TraceHash() },
+		}
+		c.Explore(sc)
+	}
+
+	c.Bound("reconnecting.connect", "ReconnectClient.Connect given up by its context (cancelled at 2.5 s / deadline 2.5 s) while every attempt fails by {dial error, refused CONNACK, peer closes before CONNACK, mixtures}: the returned error has the context's error in its chain; P<=1")
+	scripts := [][]string{{"dial"}, {"refuse"}, {"close"}, {"dial", "refuse"}, {"refuse", "dial"}, {"close", "refuse"}}
+	for _, sc0 := range scripts {
+		for _, how := range []string{"cancel", "deadline"} {
+			sc0, how := sc0, how
+			var net *env.Net
+			sc := &vrt.Scenario{
+				Name:  fmt.Sprintf("C19/reconnecting/connect/%s/%s", strings.Join(sc0, "+"), how),
+				Bound: vrt.Budget{P: 1},
+				Cfg:   vrt.Config{Horizon: int64(60e9)},
+				Body: func() {
+					net = env.NewNet()
+					n := 0
+					dialer := mqtt.DialerFunc(func(vctx.Context) (*mqtt.BaseClient, error) {
+						o := sc0[n%len(sc0)]
+						n++
+						if o == "dial" {
+							return nil, errors.New("c19: dial refused")
+						}
+						s := env.NewScript(net)
+						s.OnPacket = func(_ *env.Script, p *env.Packet) {
+							if p.Type != env.CONNECT {
+								return
+							}
+							if o == "refuse" {
+								s.Conn.Send(env.EncConnAck(false, 5), "refused")
+							}
+							s.Conn.PeerClose("no session for you")
+						}
+						return &mqtt.BaseClient{Transport: s.Conn}, nil
+					})
+					rc, err := mqtt.NewReconnectClient(dialer, mqtt.WithReconnectWait(vtime.Second, vtime.Second))
+					if err != nil {
+						vrt.Failf("harness", "%v", err)
+						return
+					}
+					var ctx vctx.Context
+					var cancel func()
+					if how == "deadline" {
+						ctx, cancel = vctx.WithTimeout(vctx.Background(), 2500*vtime.Millisecond)
+					} else {
+						ctx, cancel = vctx.WithCancel(vctx.Background())
+						vrt.Go("canceller", func() { vrt.Sleep(int64(2500 * vtime.Millisecond)); cancel() })
+					}
+					_, cerr := rc.Connect(ctx, "c19")
+					if cerr == nil {
+						vrt.Failf("harness", "Connect succeeded although every attempt fails")
+					} else if ce := ctx.Err(); ce == nil || !errors.Is(cerr, ce) {
+						vrt.Failf("reconnecting/connect-error-hides-context-error/"+how, "Connect was given up by its context (%v) but returned %v, in whose chain errors.Is does not find the context's error (attempts: %v)", ce, cerr, sc0)
+					}
+					cancel()
+					vrt.Quiesce()
+				},
+				Observe: func() uint64 { return net.TraceHash() },
+			}
+			c.Explore(sc)
 		}
 	}
 }
